@@ -125,6 +125,74 @@ Requests ==
   \cup {[op |-> "Withdraw", inp |-> i, fund |-> d] : i \in {"wpkh", "badpath"}, d \in 1..MaxD}
   \cup {[op |-> "Heartbeat"], [op |-> "Restart"]}
 
+---------------------------------------------------------------------------
+(***************************************************************************)
+(* Protocol-handler level (harness `nhand`): the same requests as real      *)
+(* protocol messages through vls-protocol-signer's RootHandler /            *)
+(* ChannelHandler with an approver (k.approve = what the approver answers;  *)
+(* PositiveApprover: TRUE, NegativeApprover: FALSE).  Where the handler     *)
+(* adds behaviour of its own it is spelled out here; everything else is the *)
+(* Node-API operator.  The allowlist requests have no protocol message and  *)
+(* a derivation path of the wrong length cannot be expressed (the handler   *)
+(* derives the input path from Utxo.keyindex).                              *)
+(***************************************************************************)
+\* PreapproveInvoice -> Approve::handle_proposed_invoice: has_payment first (the same invoice is approved again
+\* without asking, a different invoice for the hash is refused), then the approver (the allowlist of this model
+\* holds addresses, never a payee key), then Node::add_invoice.  A declined invoice is a reply (result = false),
+\* not an error.
+HPreapproveInvoice(s, h, v, k) ==
+  IF InvOf(s, h) # {} THEN
+         (IF [h |-> h, v |-> v, ks |-> FALSE] \in s.inv THEN OkFlag(s, TRUE) ELSE Err(s))
+  ELSE IF ~k.approve THEN OkFlag(s, FALSE)
+  ELSE AddInvoice(s, h, v)
+\* PreapproveKeysend -> Approve::handle_proposed_keysend, same structure
+HPreapproveKeysend(s, h, v, k) ==
+  IF InvOf(s, h) # {} THEN
+         (IF [h |-> h, v |-> v, ks |-> TRUE] \in s.inv THEN OkFlag(s, TRUE) ELSE Err(s))
+  ELSE IF ~k.approve THEN OkFlag(s, FALSE)
+  ELSE AddKeysend(s, h, v)
+\* SetupChannel on the ChannelHandler of (peer, d), then - once - ValidateCommitmentTx2(0), which for protocol
+\* version >= 5 is validate_holder_commitment_tx_phase2 + activate_initial_commitment: what Setup stands for
+HSetup(s, d) == Setup(s, d)
+\* SignWithdrawal -> RootHandler::sign_withdrawal: Approve::handle_proposed_onchain (Node::check_onchain_tx; an
+\* UnknownDestinations verdict is put to the approver, every other policy error is final), then
+\* Node::unchecked_sign_onchain_tx.  The p2wsh output for channel `fund` is an unknown destination when the channel
+\* is still a stub (no funding outpoint yet) and when the transaction is not the one the channel was set up with:
+\* Setup(d) names the transaction with the p2wpkh input as the funding transaction, and over the wire (PSBT with
+\* the previous transactions) a taproot input is a different previous output, hence a different txid.
+\* A request for a channel that does not exist cannot be built (no keys for the output): the harness refuses it.
+HUnknownDestination(s, inp, fund) ==
+  fund > 0 /\ ((\E c \in ChanOf(s, fund) : c.phase = "stub") \/ inp \in {"tr", "badtr"})
+HSignWithdrawal(s, inp, fund, k) ==
+  IF fund > 0 /\ ChanOf(s, fund) = {} THEN Err(s)
+  ELSE IF HUnknownDestination(s, inp, fund) /\ ~k.approve THEN Err(s)       \* "unapproved destination"
+  ELSE IF inp = "badtr" THEN Err(s)         \* refused by the signing step (after the check has counted the fee,
+                                            \* unless the approver overrode an UnknownDestinations verdict)
+  ELSE Ok(s)
+
+HStep(s, r, k) ==
+  CASE r.op = "AddInvoice"  -> HPreapproveInvoice(s, r.h, r.v, k)
+    [] r.op = "AddKeysend"  -> HPreapproveKeysend(s, r.h, r.v, k)
+    [] r.op = "NewChannel"  -> NewChannel(s, r.d)     \* RootHandler: Node::new_channel(dbid, peer id)
+    [] r.op = "Setup"       -> HSetup(s, r.d)
+    [] r.op = "Forget"      -> Forget(s, r.d)         \* RootHandler: channel id from (peer id, dbid)
+    [] r.op = "Withdraw"    -> HSignWithdrawal(s, r.inp, r.fund, k)
+    [] r.op = "Heartbeat"   -> Ok(s)
+    [] r.op = "Restart"     -> Ok(s)
+    [] OTHER                -> Err(s)
+
+\* the requests that have a protocol form
+HRequests == {r \in Requests : /\ r.op \notin {"AddAllow", "SetAllow", "RemoveAllow"}
+                               /\ ~(r.op = "Withdraw" /\ r.inp = "badpath")}
+\* a wider alphabet for the thorough tier: a second invoice hash, taproot inputs together with a channel funding
+HRequestsWide ==
+  HRequests \cup {[op |-> "AddInvoice", h |-> "h2", v |-> v] : v \in {"v1", "old"}}
+            \cup {[op |-> "Withdraw", inp |-> i, fund |-> d] : i \in {"tr", "badtr"}, d \in 1..MaxD}
+\* ... and a third channel id (thorough tier)
+HRequestsDeep ==
+  HRequestsWide \cup {[op |-> o, d |-> MaxD + 1] : o \in {"NewChannel", "Setup", "Forget"}}
+                \cup {[op |-> "Withdraw", inp |-> "wpkh", fund |-> MaxD + 1]}
+
 \* ghost for the id rule (C15b): once Forget(d) was answered for an existing channel,
 \* no NewChannel(e) with e <= d creates a channel
 InitGhost == [forgotten |-> 0, reuse |-> FALSE]
